@@ -413,7 +413,14 @@ AKRdyDone(k, at, now, sig) ==      \* sig: the count changed, so the pump was si
   /\ UNCHANGED <<minfo, tq, owed, copying, chan, top, cust, done, stash>>
 
 \* C02: an accepted FIN/REQ/TOUCH did what it says to that message; a refused one did nothing
+\* ... and nothing else: no message of k's is finished, requeued or touched in k's name by a command that does not say so
+\* (C02: a message is sent again only after its holder requeued it or its timeout expired)
+Allowed(cmd, arg) == CASE cmd = "FIN"   -> {<<arg, "fin">>}
+                       [] cmd = "REQ"   -> {<<arg, "q">>, <<arg, "d">>}
+                       [] cmd = "TOUCH" -> {<<arg, "touch">>}
+                       [] OTHER         -> {}
 AKCmd(k, cmd, arg, err) ==
+  /\ (Has(done, k) /\ Has(cl, k) /\ Tracked(cl[k].c)) => done[k] \subseteq Allowed(cmd, arg)
   /\ (cmd \in {"FIN", "REQ", "TOUCH"} /\ err = "" /\ Has(cl, k) /\ Tracked(cl[k].c)) =>
         /\ Has(done, k)
         /\ CASE cmd = "FIN"   -> <<arg, "fin">> \in done[k]
